@@ -363,6 +363,76 @@ fn eval_text(ms: &ModuleSet, text: String) -> Verdict {
     Verdict::Pass { nontrivial, classes: feats.iter().map(|s| s.to_string()).collect() }
 }
 
+// ---------------------------------------------------------------------------------------
+// instances of parameterized types: the declaration of `Inst ::= Tmpl { A, B }` has the shape of
+// the template's body with the actual parameters written out
+
+const PARAM_BODIES: [&str; 7] = [
+    "SEQUENCE { unordered SET OF Ta, ordered SEQUENCE OF Ta, first Ta OPTIONAL, second Ub }",
+    "CHOICE { one Ta, many SET OF Ta, other SEQUENCE OF Ub }",
+    "SET OF Ta",
+    "SEQUENCE OF Ub",
+    "SEQUENCE OF SEQUENCE { inner Ta, more SET OF Ub }",
+    "SET { a Ta, b SEQUENCE OF Ub OPTIONAL, c SET OF SET OF Ta }",
+    "SEQUENCE { nested SEQUENCE { deep SET OF Ta, ch CHOICE { x Ub, y SET OF Ub } } }",
+];
+const PARAM_ARGS: [&str; 6] = ["BOOLEAN", "INTEGER", "IA5String", "OCTET STRING", "Zo-Other", "SEQUENCE OF BOOLEAN"];
+
+fn param_texts(body: usize, a: usize, b: usize) -> (String, String) {
+    let (ta, ub) = (PARAM_ARGS[a % PARAM_ARGS.len()], PARAM_ARGS[b % PARAM_ARGS.len()]);
+    let tmpl = PARAM_BODIES[body % PARAM_BODIES.len()];
+    let head = "Par-Mod DEFINITIONS AUTOMATIC TAGS ::= BEGIN\nZo-Other ::= SEQUENCE { x INTEGER }\n";
+    let expanded = tmpl.replace("Ta", ta).replace("Ub", ub);
+    (format!("{head}Tmpl {{ Ta, Ub }} ::= {tmpl}\nInst ::= Tmpl {{ {ta}, {ub} }}\nEND\n"), format!("{head}Inst ::= {expanded}\nEND\n"))
+}
+
+fn param_eval(body: usize, a: usize, b: usize) -> Result<Option<String>, String> {
+    let (sugared, expanded) = param_texts(body, a, b);
+    let decl = |text: &str| -> Result<String, String> {
+        match comp::compile_ts(&[text.to_string()]) {
+            Outcome::Ok(c) if c.warnings.is_empty() => {
+                let nss = crate::tsparse::parse(&c.generated)?;
+                let ns = nss.first().ok_or("no namespace")?;
+                let m = crate::tsparse::decl_map(ns);
+                Ok(format!("{:?}", m.get("Inst").ok_or("no declaration of Inst")?))
+            }
+            Outcome::Ok(c) => Err(format!("warnings: {}", c.warnings[0])),
+            Outcome::Err(e) => Err(e),
+            Outcome::Panic(p) => Err(format!("panic: {p}")),
+        }
+    };
+    let want = decl(&expanded)?;
+    match decl(&sugared) {
+        Ok(got) if got == want => Ok(None),
+        Ok(got) => Ok(Some(format!("the instance is declared as {got}, the same type written out as {want}"))),
+        Err(e) => Ok(Some(format!("the type written out is declared as {want}, the instance: {e}"))),
+    }
+}
+
+fn param_leg(ctx: &mut Ctx) {
+    let mut reported = 0;
+    for body in 0..PARAM_BODIES.len() {
+        for a in 0..PARAM_ARGS.len() {
+            for b in 0..PARAM_ARGS.len() {
+                match param_eval(body, a, b) {
+                    Err(_) => ctx.class("param:skipped (the written-out type is rejected)"),
+                    Ok(res) => {
+                        ctx.case(&format!("param:{}", param_texts(body, a, b).0), true);
+                        ctx.class("leg:instance-of-a-parameterized-type");
+                        if let Some(d) = res {
+                            ctx.class("fails:param");
+                            if reported < 3 {
+                                reported += 1;
+                                ctx.fail(crate::ev::Failure { finding: None, what: format!("instance of a parameterized type: {d}"), replay: json!({"kind": "c18-param", "body": body, "a": a, "b": b, "sources": [{"name": "par.asn", "text": param_texts(body, a, b).0}]}) });
+                            }
+                        }
+                    }
+                }
+            }
+        }
+    }
+}
+
 pub fn run(tier: Tier, seed: u64, replay: Option<String>) -> i32 {
     let mut ctx = Ctx::new("C18", tier, seed);
     ctx.rule = "module sets from the §3 generator (same generator as C01/C02, all features) compiled with the TypeScript backend; oracle: delimiter balance, \
@@ -378,6 +448,21 @@ pub fn run(tier: Tier, seed: u64, replay: Option<String>) -> i32 {
     ];
     let e = |m: &ModuleSet| eval(m);
     let run = GenericRun { gcfg: gen_cfg(), n: tier.pick(30000, 300000), stream_len: 4000, salt: 18, shrink_budget: 300, max_violations: 3, eval: &e };
+    if let Some(p) = &replay {
+        let v: serde_json::Value = serde_json::from_str(&std::fs::read_to_string(p).unwrap_or_default()).unwrap_or_default();
+        if v["kind"] == "c18-param" {
+            let g = |k: &str| v[k].as_u64().unwrap_or(0) as usize;
+            ctx.case(&param_texts(g("body"), g("a"), g("b")).0, true);
+            match param_eval(g("body"), g("a"), g("b")) {
+                Ok(Some(d)) => {
+                    ctx.fail(crate::ev::Failure { finding: None, what: format!("instance of a parameterized type: {d}"), replay: v.clone() });
+                }
+                Ok(None) => {}
+                Err(e) => ctx.inconclusive.push(e),
+            }
+            return ctx.finish();
+        }
+    }
     if let Some(p) = replay {
         let r = replay_generic(&mut ctx, &run, "c18", &p);
         let code = ctx.finish();
@@ -390,5 +475,6 @@ pub fn run(tier: Tier, seed: u64, replay: Option<String>) -> i32 {
     let without = GenericRun { gcfg: GenCfg { groups: false, ..gen_cfg() }, n: run.n - run.n / 5, stream_len: 4000, salt: 1018, shrink_budget: 300, max_violations: 3, eval: &e };
     ctx.class_n("excluded_by_finding[F-ts-group]:cases_generated_without_groups", without.n as u64);
     run_generic_no_replay(&mut ctx, &without, "c18");
+    param_leg(&mut ctx);
     ctx.finish()
 }
